@@ -1,4 +1,5 @@
 import StepupModel.Lemmas.NGlob
+import StepupModel.Generated.NGlob
 /-!
 # C17  Named glob matching is consistent with the file system and with itself
 
@@ -160,40 +161,61 @@ theorem recorded_spec (ng : NG) (t : Tree) (q : Str) :
   unfold NG.scan
   rw [files_spec ng.matcher _ _ (scan_records ng.matcher _), matcher_isSome]
 
-/-- Full statement of "recorded = existing, globbed and accepted". -/
+/-- Statement of "recorded = existing, globbed and accepted". -/
 def RecordedEqAccepted : Prop :=
   ∀ (pattern : Str) (subs : Subs) (ng : NG) (t : Tree), mkNG pattern subs = .ok ng → ∀ q,
     q ∈ files (ng.scan t) ↔ (q ∈ treePaths t ∧ q ∈ globPaths t ng.glob ∧ accepts ng.regex q = true)
 
 /-- The recorded set equals the set of tree paths (directories with trailing slash) returned by
-`iglob` and accepted by the regex, provided the base of a trailing `**` is an existing directory. -/
-theorem recorded_eq_accepted_partial (ng : NG) (t : Tree) (hb : TrailingBasesAreDirs t ng.glob) (q : Str) :
+`iglob` and accepted by the regex: `NamedGlob.glob` only hands existing paths to `extend`
+(the existence filter added for F10; CPython's `_glob2` yields its base unchecked). -/
+theorem recorded_eq_accepted (ng : NG) (t : Tree) (q : Str) :
     q ∈ files (ng.scan t) ↔ (q ∈ treePaths t ∧ q ∈ globPaths t ng.glob ∧ accepts ng.regex q = true) := by
   rw [recorded_spec]
   constructor
-  · rintro ⟨h1, h2⟩; exact ⟨globPaths_sound t ng.glob hb q h1, h1, h2⟩
+  · rintro ⟨h1, h2⟩; exact ⟨globPaths_exist t ng.glob q h1, h1, h2⟩
   · rintro ⟨_, h1, h2⟩; exact ⟨h1, h2⟩
 
-/-- Every path yielded for a glob that does not end in `**` exists. -/
-theorem globbed_exist (t : Tree) (g : Str) (h : endsRecursive g = false) (q : Str)
-    (hq : q ∈ globPaths t g) : q ∈ treePaths t :=
-  globPaths_sound t g (fun hr => by rw [h] at hr; cases hr) q hq
+theorem recorded_eq_accepted_all : RecordedEqAccepted :=
+  fun _ _ ng t _ q => recorded_eq_accepted ng t q
 
+/-- The property as worded ("recorded = existing paths the matcher accepts") follows from the
+theorem above plus completeness of the glob for this pattern and tree.  Completeness is the
+full statement `GlobComplete` below, which is false in the four classes named by the
+`..._negation` theorems of section 4. -/
+theorem recorded_eq_existing_accepted_partial (ng : NG) (t : Tree)
+    (hcomplete : ∀ q ∈ treePaths t, accepts ng.regex q = true → q ∈ globPaths t ng.glob) (q : Str) :
+    q ∈ files (ng.scan t) ↔ (q ∈ treePaths t ∧ accepts ng.regex q = true) := by
+  rw [recorded_eq_accepted ng t]
+  constructor
+  · rintro ⟨h1, _, h3⟩; exact ⟨h1, h3⟩
+  · rintro ⟨h1, h3⟩; exact ⟨h1, hcomplete q h1 h3, h3⟩
 
-/-- F10 witness: in an empty tree `n/**` records `n/`; with `a/f1` a regular file `a/f1/**`
-records `a/f1/`.  Neither path exists. -/
-theorem phantom_base_negation : ¬ RecordedEqAccepted := by
-  intro h
-  have hng : mkNG [110, 47, 42, 42] [] =
-      .ok ⟨[.atom (.lit [110, 47]), .atom (.star .dot)], [], [110, 47, 42, 42]⟩ := by rfl
-  have h1 := (h _ _ _ [] hng [110, 47]).mp (by decide)
-  exact absurd h1.1 (by decide)
+/-- Every path handed to `extend` exists. -/
+theorem globbed_exist (t : Tree) (g : Str) (q : Str) (hq : q ∈ globPaths t g) : q ∈ treePaths t :=
+  globPaths_exist t g q hq
 
-/-- The same with a regular file as the base: tree `a/`, `a/f`, pattern `a/f/**`. -/
-theorem phantom_file_base_witness :
-    (mkNG [97, 47, 102, 47, 42, 42] []).toOption.map (fun ng => files (ng.scan [([[97]], true), ([[97], [102]], false)])) =
-      some [[97, 47, 102, 47]] ∧
-    [97, 47, 102, 47] ∉ treePaths [([[97]], true), ([[97], [102]], false)] := by decide
+/-- Former F10 witnesses, now behaving correctly: in an empty tree `n/**` records nothing although
+the modelled `iglob` still yields `n/`; with `a/f` a regular file `a/f/**` records nothing. -/
+theorem phantom_base_fixed :
+    (mkNG [110, 47, 42, 42] []).toOption.map (fun ng => ((iglob [] ng.glob).map render, files (ng.scan []))) =
+      some ([[110, 47]], []) ∧
+    (mkNG [97, 47, 102, 47, 42, 42] []).toOption.map
+      (fun ng => files (ng.scan [([[97]], true), ([[97], [102]], false)])) = some [] := by decide
+
+/-! ### Obligations on the regenerated table `Generated/NGlob.lean` -/
+
+/-- `NGLOB_REGEX_FLAGS` contains `re.DOTALL` and nothing else that changes matching. -/
+theorem dotall_flag_set : Generated.NGlob.dotAll = true ∧ Generated.NGlob.onlyDotAll = true := by decide
+
+/-- Every `re.compile` of an emitted expression (nglob.py, workflow.py) passes the flags. -/
+theorem compile_sites_pass_flags :
+    Generated.NGlob.compileSites = Generated.NGlob.compileSitesWithFlags ∧ 0 < Generated.NGlob.compileSites := by
+  decide
+
+/-- `.` accepts every character, so `**` accepts names with a newline. -/
+theorem dot_matches_all (c : Nat) : CSet.dot.mem c = true := by
+  simp [CSet.mem, dotall_flag_set.1]
 
 /-! ## 4. The two compilers against each other (language statements) -/
 
@@ -213,15 +235,13 @@ def RegexEqGlobNoRepeats : Prop :=
   ∀ (pattern : Str) (subs : Subs) (ng : NG) (t : Tree), mkNG pattern subs = .ok ng → NoRepeatedNames pattern →
     closedTree t = true → ∀ q ∈ treePaths t, (accepts ng.regex q = true ↔ q ∈ globPaths t ng.glob)
 
-/-- F4 witness: tree `d/`, `d/ok`, `d/a\nb`, pattern `d/**`.  The glob returns `d/a\nb`, the
-regex `d/.*` rejects it because `.` does not match a newline. -/
-theorem newline_negation : ¬ RegexEqGlobNoRepeats := by
-  intro h
-  have hng : mkNG [100, 47, 42, 42] [] =
-      .ok ⟨[.atom (.lit [100, 47]), .atom (.star .dot)], [], [100, 47, 42, 42]⟩ := by rfl
-  have h1 := (h _ _ _ [([[100]], true), ([[100], [111, 107]], false), ([[100], [97, 10, 98]], false)]
-    hng (by unfold NoRepeatedNames; decide) (by decide) [100, 47, 97, 10, 98] (by decide)).mpr (by decide)
-  exact absurd h1 (by decide)
+/-- Former F4 witness, now behaving correctly: tree `d/`, `d/ok`, `d/a\\nb`, pattern `d/**`: the
+name with a newline is accepted by `d/.*` (DOTALL) and recorded. -/
+theorem newline_fixed :
+    (mkNG [100, 47, 42, 42] []).toOption.map (fun ng =>
+      (accepts ng.regex [100, 47, 97, 10, 98],
+       files (ng.scan [([[100]], true), ([[100], [111, 107]], false), ([[100], [97, 10, 98]], false)]))) =
+    some (true, [[100, 47], [100, 47, 97, 10, 98], [100, 47, 111, 107]]) := by decide
 
 /-- By design a directory is only accepted through a trailing single-component wildcard, `**`
 or `/`: the literal pattern `a` does not record the directory `a/` that the glob returns. -/
@@ -260,5 +280,86 @@ theorem backref_empty_component_negation : ¬ GlobComplete := by
         [98, 42, 47, 42]⟩ := by rfl
   have h1 := h _ _ _ [([[98]], true)] hng (by decide) [98, 47] (by decide) (by decide)
   exact absurd h1 (by decide)
+
+
+/-- The run of single-component wildcards `${*m}*` may be empty as a whole: `a/${*m}*` accepts the
+existing directory path `a/` (the non-empty rule only covers a lone wildcard after a separator). -/
+theorem wildcard_run_empty_component_negation : ¬ GlobComplete := by
+  intro h
+  have hng : mkNG [97, 47, 36, 123, 42, 109, 125, 42] [] =
+      .ok ⟨[.atom (.lit [97, 47]), .group [109] [.star .notSlash], .atom (.star .notSlash), .atom .optSlash],
+        [[109]], [97, 47, 42]⟩ := by rfl
+  have h1 := h _ _ _ [([[97]], true), ([[97], [120]], false)] hng (by decide) [97, 47] (by decide) (by decide)
+  exact absurd h1 (by decide)
+
+/-! ### Anonymous `*` versus a fresh named wildcard -/
+
+/-- Acceptance by the expression compiled from a token list (`false` when the compiler raises). -/
+def acceptsT (toks : List Tok) (subs : Subs) (s : Str) : Bool :=
+  match compileToks toks subs with
+  | .ok re => accepts re s
+  | .error _ => false
+
+def acceptsP (pattern : Str) (subs : Subs) (s : Str) : Bool :=
+  match compileRegex pattern subs with
+  | .ok re => accepts re s
+  | .error _ => false
+
+/-- `${*n}` -/
+def wildText (n : Str) : Str := [36, 123, 42] ++ n ++ [125]
+
+/-- Full statement `anon_named_equiv` on pattern strings: the `*` after `pre` is a token of its
+own, `n` is a fresh valid name without substitution; replacing that `*` by `${*n}` does not
+change the accepted set. -/
+def AnonNamedEquiv : Prop :=
+  ∀ (pre post n : Str) (subs : Subs) (tp tq : List Tok),
+    tokenize (pre ++ 42 :: post) = tp ++ Tok.star :: tq → renderToks tp = pre →
+    n ≠ [] → n.all isNameChar = true → Tok.named n ∉ tp → Tok.named n ∉ tq → subs.getD n = [42] →
+    ∀ s, acceptsP (pre ++ 42 :: post) subs s = acceptsP (pre ++ wildText n ++ post) subs s
+
+/-- Proved part, on token lists: when the replaced `*` is not preceded by a `*`/`**` token and not
+followed by a `*`, `**` or `**/` token, both patterns compile to the same expression up to the
+group around that wildcard, and accept the same strings (all strings, not only paths).
+Not proved: that the tokeniser maps the two pattern strings to these two token lists. -/
+theorem anon_named_equiv_partial (subs : Subs) (tp tq : List Tok) (n : Str)
+    (hn : n ≠ []) (hsub : subs.getD n = [42]) (hp : Tok.named n ∉ tp) (hq : Tok.named n ∉ tq)
+    (hl1 : tp.getLast? ≠ some .star) (hl2 : tp.getLast? ≠ some .dstar)
+    (hright : ∀ t, tq.head? = some t → starLike t = false) (s : Str) :
+    acceptsT (tp ++ .star :: tq) subs s = acceptsT (tp ++ .named n :: tq) subs s := by
+  unfold acceptsT
+  rcases compileToks_anon subs tp tq n hn hsub hp hq hl1 hl2 hright with ⟨R, h1, h2, hb⟩ | ⟨e, h1, h2⟩
+  · rw [h1, h2]; exact accepts_anon n R hb s
+  · rw [h1, h2]
+
+/-- The hypothesis on the neighbours is needed: `a/***` rejects the directory path `a/`, while
+`a/*${*n}*` accepts it (the middle `*` replaced). -/
+theorem anon_named_adjacent_negation : ¬ AnonNamedEquiv := by
+  intro h
+  have := h [97, 47, 42] [42] [110] [] [.lit [97, 47], .star] [.star] (by rfl) (by rfl) (by decide) (by decide)
+    (by decide) (by decide) (by rfl) [97, 47]
+  revert this
+  decide
+
+/-! ## Non-vacuity -/
+
+/-- A change set with an addition, a deletion, an unchanged path and a re-reported path. -/
+example : ChangeSet [[97], [98], [99]] [[98], [99], [100]] [[100], [99]] [[97], [101]] := by
+  constructor <;> decide
+
+/-- `${*n}/x${*n}` matches `ab/xab` with `n = ab` and rejects `ab/xba`. -/
+example : (compileRegex [36, 123, 42, 110, 125, 47, 120, 36, 123, 42, 110, 125] []).toOption.map
+    (fun re => (fullmatch re [97, 98, 47, 120, 97, 98], accepts re [97, 98, 47, 120, 98, 97])) =
+    some (some [([110], [97, 98])], false) := by decide
+
+/-- A trailing `**`: the base and everything below it, hidden entries included, are recorded. -/
+example : (mkNG [97, 47, 42, 42] []).toOption.map
+      (fun ng => files (ng.scan [([[97]], true), ([[97], [120]], false), ([[97], [46, 104]], true)])) =
+      some [[97, 47], [97, 47, 46, 104, 47], [97, 47, 120]] := by decide
+
+/-- The hypotheses of `anon_named_equiv_partial` for `a/*.txt` and `a/${*n}.txt`. -/
+example (s : Str) : acceptsT ([.lit [97, 47]] ++ .star :: [.lit [46, 116, 120, 116]]) [] s =
+    acceptsT ([.lit [97, 47]] ++ .named [110] :: [.lit [46, 116, 120, 116]]) [] s :=
+  anon_named_equiv_partial [] _ _ [110] (by decide) (by rfl) (by decide) (by decide) (by decide) (by decide)
+    (by intro t ht; cases ht; rfl) s
 
 end StepupModel.Props.C17
